@@ -11,18 +11,28 @@ open UgoVerif UgoVerif.Go UgoVerif.Ast
 /-- what is proved of the returned bytecode, for the main function and for every compiled function
     in the constant pool: the locals fit the frame (≤ 256); the instruction stream decodes into
     complete instructions with known opcodes; the operand of every JUMP / JUMPFALSY / ANDJUMP /
-    ORJUMP and both operands of every SETUPTRY are instruction boundaries of that stream (`StreamOK`) -/
+    ORJUMP and both operands of every SETUPTRY are instruction boundaries of that stream; the
+    constant index of every CONSTANT / CLOSURE instruction is below the size of the constant pool
+    (`StreamOK constants.size`) -/
 def WFMain (bc : Bytecode) : Prop :=
-  bc.main.numLocals ≤ maxNumLocals ∧ StreamOK bc.main.insts ∧ ConstsOK bc.constants
+  bc.main.numLocals ≤ maxNumLocals ∧ StreamOK bc.constants.size bc.main.insts ∧ ConstsOK bc.constants
 
 theorem goodP_compileProg (file : List Stmt) (hok : okSs file = true) : GoodP WFMain (compileProg file) := by
   have h1 := good_compileStmts file hok
+  intro s hs
   unfold compileProg
-  refine GoodP.bind h1 fun _ _ => ?_
-  refine GoodP.bind goodP_finishFn fun fn hfn => ?_
+  apply Sat.bind
+  apply Sat.mono (h1 s hs)
+  intro _ s1 ⟨hi1, hr1, _⟩
+  apply Sat.bind
+  apply Sat.mono (goodS_finishFn s1 hi1)
+  intro fn s2 ⟨hi2, hr2, hfn⟩
   split
-  · exact GoodP.throw_bare
+  · exact Sat.throw_bare
   · rename_i hle
-    refine GoodP.bind goodP_get_inv fun st hst => GoodP.pure ⟨by simp only; omega, hfn, hst.consts⟩
+    apply Sat.bind
+    apply Sat.get
+    apply Sat.pure
+    exact ⟨hi2, hr1.trans hr2, Nat.le_of_not_gt hle, hfn, hi2.consts⟩
 
 end UgoVerif.Compile
